@@ -22,7 +22,7 @@ func init() {
 		ID:                  "C06",
 		DeadlockIsViolation: true, // the calls of this property are synchronous functions of their inputs: a call blocked for good inside the library is a violation
 		Parallel:            4,    // cases are judged on 4 goroutines per shard: the library functions are stateless, shared state inside them shows up as wrong verdicts
-		Rule: "seeded histories of 3..14 operations on up to three instances (Absorb of 1..6 blocks split over several calls, Squeeze of 1..4 blocks (one call in fifty: 250..269 blocks, so that an instance delivers more than 255 and 256 blocks in total) in several calls with 1..64 destination lanes, Absorb of a batch with one lane shorter than announced (a panic is not judged, an error must leave the state untouched, then Reset), Clone at any point with the two copies continued differently, Reset followed by new absorbs, zero-length Absorb and Squeeze pieces (no effect in the model whether refused or accepted; no Absorb follows an empty Squeeze), rejected calls with batch 0/65 or a length that is no multiple of 243) with batch sizes 1..64 (emphasis 1, 2, 63, 64) and trit contents random / all 0 / all 1 / all -1 / lanes identical but one trit / one hot lane; every squeezed lane is compared with a single-lane model sponge fed that lane's input alone; rejected calls must return the documented error and leave CopyState unchanged; Reset must give the CopyState of a fresh instance; a clone's state equals the original's and later operations on one do not change the other; the closing squeezes of all instances of a history (originals and clones) run concurrently in separate goroutines; in half of the histories the caller's dst slice is reused from call to call (a quarter pre-filled with one shared placeholder slice) and every output handed out earlier must be unchanged at the end. Run under the default (assembly) and the purego build; the output digests of the two builds must be equal. " +
+		Rule: "seeded histories of 3..14 operations on up to three instances (Absorb of 1..6 blocks split over several calls, Squeeze of 1..4 blocks (one call in fifty: 250..269 blocks, so that an instance delivers more than 255 and 256 blocks in total) in several calls with 1..64 destination lanes, Absorb of a batch with one lane shorter than announced (a panic is not judged, an error must leave the state untouched, then Reset), Clone at any point with the two copies continued differently, Reset followed by new absorbs, zero-length Absorb and Squeeze pieces (no effect in the model whether refused or accepted; no Absorb follows an empty Squeeze), rejected calls with batch 0/65 or a length that is no multiple of 243) with batch sizes 1..64 (emphasis 1, 2, 63, 64) and trit contents random / all 0 / all 1 / all -1 / lanes identical but one trit / one hot lane; in three absorbs out of eight the input slices are related: a run of consecutive lanes holding the very same slice, all lanes adjacent windows of one buffer, or overlapping windows shifted by one trit; every squeezed lane is compared with a single-lane model sponge fed that lane's input alone; rejected calls must return the documented error and leave CopyState unchanged; Reset must give the CopyState of a fresh instance; a clone's state equals the original's and later operations on one do not change the other; the closing squeezes of all instances of a history (originals and clones) run concurrently in separate goroutines; in half of the histories the caller's dst slice is reused from call to call (a quarter pre-filled with one shared placeholder slice) and every output handed out earlier must be unchanged at the end. Run under the default (assembly) and the purego build; the output digests of the two builds must be equal. " +
 			"Non-trivial: distinct histories with batch size < 64, or >= 2 absorb calls, or >= 2 squeeze calls, or a clone/reset.",
 		Assumptions: []string{"the single-lane Curl-P-81 model in harness/oracle/curlp (self-tested on published Curl-P-81 hashes incl. multi-block absorb and squeeze)", "absorb-after-squeeze (documented panic) and lanes beyond the absorbed batch are outside the statement and not judged"},
 		Builds:      []string{"default", "default+cpuoff", "purego", "386"}, // +cpuoff: the default binary with GODEBUG=cpu.all=off (fallback paths of run-time CPU dispatch)
@@ -202,6 +202,33 @@ func content(r *rand.Rand, lanes, n, style int) []trinary.Trits {
 			}
 		}
 		src[j] = t
+	}
+	// how the caller holds its inputs (Absorb only reads them): now and then a run of consecutive lanes is given
+	// the very same slice, or all lanes are windows of one buffer, adjacent or overlapping
+	switch r.Intn(8) {
+	case 0:
+		if lanes >= 2 {
+			a := r.Intn(lanes - 1)
+			for j, e := a+1, a+1+r.Intn(lanes-a-1); j <= e; j++ {
+				src[j] = src[a]
+			}
+		}
+	case 1:
+		big := make(trinary.Trits, 0, lanes*n)
+		for j := range src {
+			big = append(big, src[j]...)
+		}
+		for j := range src {
+			src[j] = big[j*n : (j+1)*n]
+		}
+	case 2:
+		big := make(trinary.Trits, lanes+n)
+		for k := range big {
+			big[k] = rt()
+		}
+		for j := range src {
+			src[j] = big[j : j+n : j+n]
+		}
 	}
 	return src
 }
